@@ -37,6 +37,7 @@ type GraphemeReader struct {
 	forceMergeNext bool
 	lastWasRI      bool
 	mode           TextReadMode
+	readErr        error // the error of the last failed ReadByte, until takeErr
 }
 
 const graphemeReadBufferSize = 4096
@@ -54,6 +55,7 @@ func (r *GraphemeReader) ReadByte() (byte, error) {
 		err := r.fill()
 		if err != nil {
 			if r.Buffered() == 0 {
+				r.readErr = err
 				return 0, err
 			}
 			break
@@ -65,6 +67,15 @@ func (r *GraphemeReader) ReadByte() (byte, error) {
 	b := r.data[r.start]
 	r.start++
 	return b, nil
+}
+
+// takeErr returns the error that made a ReadByte fail since the last call, if any.
+// The escape sequence parser only learns that its input ended; the read loop
+// asks here why, so that it stops instead of reading the backend again.
+func (r *GraphemeReader) takeErr() error {
+	err := r.readErr
+	r.readErr = nil
+	return err
 }
 
 func (r *GraphemeReader) Buffered() int {
